@@ -59,7 +59,12 @@ BUFFERS = [memoryview(b'ab\xce\xce'), memoryview(bytearray(b'ab\xce\xce')),
            memoryview(bytearray(b'ab\xce\xce') * 4).cast('Q'),
            array.array('B', b'ab\xce\xce'), array.array('H', b'ab\xce\xce'),
            array.array('d', [1.5, -2.0]), memoryview(b''),
-           memoryview(b'abcdef')[::2]]
+           memoryview(b'abcdef')[::2],
+           # more than one dimension: len() is the first dimension only
+           memoryview(bytes(range(48))).cast('B', shape=[6, 8]),
+           memoryview(bytes(range(48))).cast('I', shape=[3, 4]),
+           memoryview(bytearray(b'ab\xce\xce' * 6)).cast('H', shape=[2, 3, 2]),
+           memoryview(b'x').cast('B', shape=[1, 1])]
 WRONG = [None, b'bytes', 5, 1.5, [], {}, (), True, 'str', object,
          bytearray(b'x'), D('1')] + BUFFERS
 STRINGS = ['', 'a', 'a' * 255, 'a' * 256, 'é' * 127 + 'a', 'é' * 128,
@@ -319,6 +324,29 @@ def check_encoders(ctx):
                               'raise', repr(out))
         except Exception:  # noqa
             ctx.outcome('raised')
+
+
+def check_surrogates(ctx):
+    """Every lone surrogate U+D800..U+DFFF (no UTF-8 form: the str cannot be
+    sent as text) alone / first / last, through every string entry point:
+    raise, or bytes that decode back to the very same str."""
+    p = lib.pamqp()
+    e, d = p.encode, p.decode
+    for cp in range(0xD800, 0xE000):
+        c = chr(cp)
+        for s in (c, c + 'ab', 'ab' + c):
+            judge(ctx, 'encode.short_string', s, e.short_string, d.short_str)
+            judge(ctx, 'encode.long_string', s, e.long_string, d.long_str)
+        judge(ctx, 'encode.field_table', {'k': c + 'v', c: 1},
+              e.field_table, d.field_table)
+        judge(ctx, 'encode.field_array', ['a', 'x' + c], e.field_array,
+              d.field_array)
+    for s in ('\udce9t\udce9.csv', 'report-\udce9', '\ud83d', '\ude00'):
+        for m, vec, idx in (
+                (spec_table.BY_NAME['Basic.Publish'], (0, '', s, False,
+                                                       False), 2),
+                (spec_table.BY_NAME['Connection.SecureOk'], (s,), 0)):
+            check_method_arg(ctx, m, idx, s)
 
 
 def check_bit(ctx):
@@ -718,7 +746,8 @@ def check_dense(ctx, kind):
 
 
 def tasks(tier, seed):
-    out = [('encoders',), ('bit',), ('envelope',), ('props',)]
+    out = [('encoders',), ('bit',), ('envelope',), ('props',),
+           ('surrogates',)]
     out += [('dense', k) for k in DENSE]
     out += [('method', m.name) for m in spec_table.METHODS if m.args]
     return out
@@ -730,6 +759,8 @@ def run(task, ctx):
         check_encoders(ctx)
     elif kind == 'bit':
         check_bit(ctx)
+    elif kind == 'surrogates':
+        check_surrogates(ctx)
     elif kind == 'envelope':
         check_envelope_args(ctx)
     elif kind == 'dense':
